@@ -3,9 +3,9 @@ from props.C10 import shape as artshape
 
 ASSUMPTIONS = ["bitmap: a valid 1-bit 9x2 bitmap (70 bytes, payload symbolic) with one header field set to each boundary value of a list, or truncated to each length; then Validate, WriteIndexed, SwapRedAndBlue, InvertScanLines on the accepted object",
                "tileset: a valid 32x32 custom tileset (2144 bytes, palette and pixels symbolic) with one header field corrupted or truncated; then validation and both save formats",
-               "PRT: valid shapes (with and without a palette) with one field corrupted or truncated; then Write, VerifyImageIndexInBounds and SpriteLoader::ExtractImage for every index 0..count+1 against a symbolic pixel file in the model file system",
+               "PRT: valid shapes (with and without a palette) with one field corrupted or truncated; then Write and VerifyImageIndexInBounds for every index 0..count+1",
                "allocation requests above VF_MAX_ALLOC fail with std::bad_alloc; real exception unwinding is translated"]
-OUTSIDE = ["solver-chosen multi-field combinations other than the header kernel of C08 (which frees all bitmap header fields at once)", "coverage-guided mutations", "larger pictures / more images"]
+OUTSIDE = ["SpriteLoader::ExtractImage beyond its index verification (queries exceed 30 min / 12 GB)", "solver-chosen multi-field combinations other than the header kernel of C08 (which frees all bitmap header fields at once)", "coverage-guided mutations", "larger pictures / more images"]
 LEVEL_TEXT = ("Bounded model checking of the real loaders and of every follow-up operation on what they return: CBMC's memory-safety checks on every access, front-end UB traps (abs(INT_MIN), shifts, signed overflow), "
               "termination within the unwinding bound, and refusal of every proper prefix, for all payloads of each corrupted or truncated shape.")
 LEVEL_NOTE = "Exception mode 'full'."
@@ -50,12 +50,6 @@ def queries(tier):
     alen = 8 + 4 + 16 + (36 + 12 + 4 + 16)
     for t in ([0, 7, 11, 27, 63, 64, alen - 1] if tier == "quick" else range(0, alen)):
         qs.append(q("art_trunc%03d" % t, "h_art_hostile", dict(A0, TRUNC=t), "PRT truncated to %d of %d bytes: refused" % (t, alen), vfs_n=2, vfs_cap=64))
-    if tier == "quick":          # the sprite-extraction queries (1 KiB palette + pixel file) take 25 minutes and more: thorough tier only
-        return qs
-    A1 = artshape(1, 1, 0)
-    qs.append(q("art_extract_valid", "h_art_hostile", dict(A1, EXTRACT=None), "valid PRT with one palette and one image (all fields symbolic within the rules): Write, index verification and ExtractImage for indices 0..2 against a symbolic 64-byte pixel file",
-                unwind=1400, timeout=3600, vfs_n=2, vfs_cap=64))
-    for f, (fn, vals) in {6: ("image pixel offset", [0xFFFFFFFF]), 7: ("image height", [0, 0x7FFFFFFF, 0x80000000, 0xFFFFFFFF]), 8: ("image width", [0xFFFFFFFD])}.items():
-        for v in (vals[:2] if tier == "quick" else vals):
-            qs.append(q("art_extract_field%02d_%08x" % (f, v), "h_art_hostile", dict(A1, EXTRACT=None, FIELD=f, VAL="%du" % v), "PRT with %s = 0x%x, then ExtractImage" % (fn, v), unwind=1400, timeout=1800, vfs_n=2, vfs_cap=64))
+    # NOT RUN (h_art_hostile with -DEXTRACT): SpriteLoader::ExtractImage over a PRT with a palette and a pixel file needs more than 30 minutes /
+    # 12 GB per query (1 KiB palette copies + BitmapFile creation + file model); the extraction path beyond index verification is outside the claim.
     return qs
